@@ -21,7 +21,7 @@ from pathlib import Path
 VERIF = Path(__file__).resolve().parent.parent
 LEAN = VERIF / "lean"
 REPO = Path(os.environ.get("EVO_REPO", "/repo"))
-DRV = LEAN / ".lake" / "build" / "bin" / "evodrv"
+BIN = LEAN / ".lake" / "build" / "bin"
 STD_AXIOMS = {"propext", "Classical.choice", "Quot.sound"}
 FORBIDDEN = re.compile(r"\b(sorry|admit|native_decide|bv_decide|implemented_by)\b|^\s*axiom\s|unsafe\s|maxHeartbeats\s+0")
 
@@ -84,11 +84,13 @@ def hexs(s: str) -> str:
 
 
 # ----------------------------------------------------------------------------- driver
-def run_driver(lines):
-    """one batch: all lines in, all lines out (order preserved)"""
+def run_driver(lines, prop=None):
+    """one batch: all lines in, all lines out (order preserved); the driver of property `prop`
+    (default: taken from the first token of the first line)"""
     if not lines:
         return []
-    p = subprocess.run([str(DRV)], input="\n".join(lines) + "\n", capture_output=True, text=True)
+    prop = prop or lines[0].split(" ", 1)[0]
+    p = subprocess.run([str(BIN / f"drv_{prop}")], input="\n".join(lines) + "\n", capture_output=True, text=True)
     if p.returncode != 0:
         raise ToolError(f"driver exited with {p.returncode}: {p.stderr[:500]}")
     outs = p.stdout.split("\n")
@@ -132,7 +134,7 @@ def strip_comments(text):
 
 def forbidden_tokens():
     hits = []
-    for f in sorted((LEAN / "EvoModel").rglob("*.lean")) + [LEAN / "Driver.lean"]:
+    for f in sorted((LEAN / "EvoModel").rglob("*.lean")):
         for i, line in enumerate(strip_comments(f.read_text()).split("\n")):
             if FORBIDDEN.search(line):
                 hits.append(f"{f.relative_to(LEAN)}:{i+1}: {line.strip()[:80]}")
@@ -148,11 +150,11 @@ def lean_side(prop, tier, pre_build=None):
     cmds = []
     res = {"obligations": len(thms), "discharged": 0, "broken": [], "gen": gen_notes,
            "theorems": [n for n, _ in thms]}
-    cmd = f"lake build EvoModel.Props.{prop} evodrv"
+    cmd = f"lake build EvoModel.Props.{prop} drv_{prop}"
     cmds.append(f"cd lean && {cmd}")
     p = sh(cmd, cwd=LEAN)
     out = p.stdout + p.stderr
-    if not DRV.exists():
+    if not (BIN / f"drv_{prop}").exists():
         raise ToolError("driver could not be built:\n" + out[-2000:])
     broken = set()
     if p.returncode != 0:
